@@ -42,6 +42,33 @@ def step (s : St) : Op → St × Option Out
   | .traverse => (s, some (.items s.m))
   | .height => (s, none)
 
+/-! ### bulk operations of long runs (`fillasc a n`, `removeasc a n`)
+
+Closed forms of `n` single steps, under preconditions the monitor checks; `Theorems/C10.lean: fillAsc_exec,
+dropAsc_exec` prove them equal to running the steps one by one. -/
+
+/-- the keys `a, a+1, …, a+n-1` -/
+def ascKeys (a : Int) : Nat → List Int
+  | 0 => []
+  | n + 1 => a :: ascKeys (a + 1) n
+
+/-- `put a a; put (a+1) (a+1); …` (n puts) -/
+def fillOps (a : Int) (n : Nat) : List Op := (ascKeys a n).map fun k => .put k k
+
+/-- `remove a; remove (a+1); …` (n removes) -/
+def dropOps (a : Int) (n : Nat) : List Op := (ascKeys a n).map fun k => .remove k
+
+/-- precondition of the closed form of `fillasc a n`: every key ever inserted is below `a` -/
+def fillPre (s : St) (a : Int) : Bool := s.ever.all (fun k => decide (k < a)) && s.m.all (fun e => decide (e.1 < a))
+
+def fillAsc (s : St) (a : Int) (n : Nat) : St :=
+  { m := s.m ++ (ascKeys a n).map (fun k => (k, k)), ever := (ascKeys a n).reverse ++ s.ever }
+
+/-- precondition of the closed form of `removeasc a n`: the first `n` live keys are exactly `a … a+n-1` -/
+def dropPre (s : St) (a : Int) (n : Nat) : Bool := (s.m.take n).map (·.1) == ascKeys a n
+
+def dropAsc (s : St) (n : Nat) : St := { s with m := s.m.drop n }
+
 /-- `Height ≤ log₂ (max 1 N)`, i.e. `2 ^ height ≤ max 1 N`, N = number of distinct keys ever inserted. -/
 def HeightOk (s : St) (h : Int) : Prop := 0 ≤ h ∧ 2 ^ h.toNat ≤ max 1 s.ever.length
 
